@@ -101,3 +101,654 @@ Proof.
 Qed.
 Lemma C12_sp_ascending tol (xs : list R) : ascending (switched_peaks tol xs).
 Proof. eapply subl_ascending; [apply C12_sp_subsequence_of_peaks|apply C11_ascending]. Qed.
+
+(** * Deepening: the switched-peak loop at zero tolerance, excursion by excursion; positive tolerance by simulation *)
+(** ** the switched-peak loop without accumulator *)
+Fixpoint spl (tol : R) (xs : list R) (lst bestv : R) (besti : nat) (ps : list nat) : list nat :=
+  match ps with
+  | [] => [besti]
+  | p :: r =>
+    let v := xat xs p in
+    if nleb (nmul (nadd v (nmul tol (nsign lst))) lst) n0
+    then besti :: spl tol xs v (nabs v) p r
+    else if (nltb n0 (nmul v lst)) && (nltb bestv (nabs v)) then spl tol xs lst (nabs v) p r
+         else spl tol xs lst bestv besti r
+  end.
+Lemma sp_loop_spl tol (xs : list R) lst bv bi ps out : sp_loop tol xs lst bv bi ps out = rev out ++ spl tol xs lst bv bi ps.
+Proof.
+  revert lst bv bi out; induction ps as [|p r IH]; intros lst bv bi out; cbn [sp_loop spl]; [reflexivity|].
+  destruct (nleb _ n0).
+  - rewrite IH. cbn [rev]. now rewrite <- app_assoc.
+  - destruct (_ && _); apply IH.
+Qed.
+Lemma switched_peaks_spl tol (xs : list R) :
+  switched_peaks tol xs = match peaks xs with [] => [] | p0 :: r => spl tol xs (xat xs p0) (Rabs (xat xs p0)) p0 r end.
+Proof. unfold switched_peaks, switched_peaks_of. destruct (peaks xs) as [|p0 r]; [reflexivity|]. now rewrite sp_loop_spl. Qed.
+
+Lemma nsign_pos x : 0 < x -> nsign x = 1.
+Proof. intros H. unfold nsign. numR. case_Rltb 0 x; [reflexivity|lra]. Qed.
+Lemma nsign_neg x : x < 0 -> nsign x = -1.
+Proof. intros H. unfold nsign. numR. case_Rltb 0 x; [lra|]. case_Rltb x 0; [lra|lra]. Qed.
+Lemma nsign_0 : nsign 0 = 0.
+Proof. unfold nsign. numR. case_Rltb 0 0; [lra|]. case_Rltb 0 0; [lra|reflexivity]. Qed.
+
+(** the condition that opens a new half cycle *)
+Definition swc (tol lst v : R) : Prop := (v + tol * nsign lst) * lst <= 0.
+Lemma swc_cases tol lst v : swc tol lst v <-> lst = 0 \/ (0 < lst /\ v <= - tol) \/ (lst < 0 /\ tol <= v).
+Proof.
+  unfold swc. destruct (Rtotal_order lst 0) as [Hl|[Hl|Hl]].
+  - rewrite (nsign_neg _ Hl). split; [intros H; right; right; split; [lra|nra]|intros [?|[[? ?]|[? ?]]]; [lra|lra|nra]].
+  - subst. rewrite nsign_0. split; [auto|intros _; lra].
+  - rewrite (nsign_pos _ Hl). split; [intros H; right; left; split; [lra|nra]|intros [?|[[? ?]|[? ?]]]; [lra|nra|lra]].
+Qed.
+Lemma swc_0 lst v : swc 0 lst v <-> v * lst <= 0.
+Proof. unfold swc. replace ((v + 0 * nsign lst) * lst) with (v * lst) by ring. reflexivity. Qed.
+
+Lemma spl_cons tol (xs : list R) lst bv bi p r :
+  (swc tol lst (xat xs p) /\ spl tol xs lst bv bi (p :: r) = bi :: spl tol xs (xat xs p) (Rabs (xat xs p)) p r) \/
+  (~ swc tol lst (xat xs p) /\ 0 < xat xs p * lst /\ bv < Rabs (xat xs p) /\
+     spl tol xs lst bv bi (p :: r) = spl tol xs lst (Rabs (xat xs p)) p r) \/
+  (~ swc tol lst (xat xs p) /\ ~ (0 < xat xs p * lst /\ bv < Rabs (xat xs p)) /\
+     spl tol xs lst bv bi (p :: r) = spl tol xs lst bv bi r).
+Proof.
+  cbn [spl]. unfold swc. numR.
+  case_Rleb ((xat xs p + tol * nsign lst) * lst) 0; [left; auto|right].
+  case_Rltb 0 (xat xs p * lst); cbn [andb].
+  - case_Rltb bv (Rabs (xat xs p)); [left|right]; repeat split; auto; lra.
+  - right. repeat split; auto; lra.
+Qed.
+
+(** same strict sign (or both zero) *)
+Definition ssame (a b : R) : Prop := (a = 0 /\ b = 0) \/ (0 < a /\ 0 < b) \/ (a < 0 /\ b < 0).
+Lemma ssame_refl a : ssame a a.
+Proof. unfold ssame. destruct (Rtotal_order a 0) as [?|[?|?]]; auto. Qed.
+Lemma ssame_of_pos a b : 0 < b * a -> ssame a b.
+Proof. unfold ssame. intros H. destruct (Rtotal_order a 0) as [?|[?|?]]; [right; right; split; nra|subst; lra|right; left; split; nra]. Qed.
+Lemma ssame_mul_le a b c : ssame a b -> c * b <= 0 -> c * a <= 0.
+Proof. intros [[-> ->]|[[Ha Hb]|[Ha Hb]]] Hc; nra. Qed.
+
+(** within a run of peaks of the sign of the half cycle, the loop keeps the first peak of largest |value| *)
+Lemma spl0_block (xs : list R) mid : forall lst bi rest, ascending (bi :: mid) ->
+  (forall p, In p mid -> 0 < xat xs p * lst) ->
+  match rest with [] => True | q :: _ => xat xs q * lst <= 0 end ->
+  exists m, In m (bi :: mid) /\ (forall p, In p (bi :: mid) -> Rabs (xat xs p) <= Rabs (xat xs m)) /\
+    (forall p, In p (bi :: mid) -> (p < m)%nat -> Rabs (xat xs p) < Rabs (xat xs m)) /\
+    spl 0 xs lst (Rabs (xat xs bi)) bi (mid ++ rest) =
+      m :: match rest with [] => [] | q :: rest' => spl 0 xs (xat xs q) (Rabs (xat xs q)) q rest' end.
+Proof.
+  induction mid as [|p mid' IH]; intros lst bi rest Hasc Hmid Hrest.
+  - exists bi. split; [now left|]. split; [intros p [<-|[]]; lra|]. split; [intros p [<-|[]] Hlt; lia|].
+    cbn [app]. destruct rest as [|q rest']; [reflexivity|].
+    destruct (spl_cons 0 xs lst (Rabs (xat xs bi)) bi q rest') as [[_ E]|[[Hn _]|[Hn _]]]; [exact E| |]; exfalso; apply Hn, (proj2 (swc_0 _ _)), Hrest.
+  - assert (Hp : 0 < xat xs p * lst) by (apply Hmid; now left).
+    assert (Hmid' : forall p0, In p0 mid' -> 0 < xat xs p0 * lst) by (intros; apply Hmid; now right).
+    inversion Hasc as [|? ? Hlt1 Hasc1]; subst. inversion Hasc1 as [|? ? Hlt2 Hasc2]; subst.
+    assert (Hbp : (bi < p)%nat) by (apply Hlt1; now left).
+    cbn [app]. destruct (spl_cons 0 xs lst (Rabs (xat xs bi)) bi p (mid' ++ rest)) as [[Hs _]|[(_ & _ & Hlt & E)|(_ & Hn & E)]].
+    + apply (proj1 (swc_0 _ _)) in Hs. lra.
+    + destruct (IH lst p rest Hasc1 Hmid' Hrest) as (m & Hm & Hdom & Hfst & E'). exists m. split; [right; exact Hm|].
+      assert (Hpm : Rabs (xat xs p) <= Rabs (xat xs m)) by (apply Hdom; now left).
+      split; [|split; [|now rewrite E]].
+      * intros p0 [<-|Hp0]; [lra|now apply Hdom].
+      * intros p0 [<-|Hp0] Hp0m; [lra|now apply Hfst].
+    + assert (Hle : Rabs (xat xs p) <= Rabs (xat xs bi)).
+      { destruct (Rle_lt_dec (Rabs (xat xs p)) (Rabs (xat xs bi))) as [Hle|Hgt]; [exact Hle|exfalso; apply Hn; split; assumption]. }
+      assert (Hasc' : ascending (bi :: mid')) by (constructor; [intros j Hj; apply Hlt1; now right|exact Hasc2]).
+      destruct (IH lst bi rest Hasc' Hmid' Hrest) as (m & Hm & Hdom & Hfst & E'). exists m.
+      assert (Hbm : Rabs (xat xs bi) <= Rabs (xat xs m)) by (apply Hdom; now left).
+      split; [destruct Hm as [<-|Hm]; [now left|right; now right]|]. split; [|split; [|now rewrite E]].
+      * intros p0 [<-|[<-|Hp0]]; [exact Hbm|lra|apply Hdom; now right].
+      * intros p0 [<-|[<-|Hp0]] Hp0m; [apply Hfst; [now left|exact Hp0m]| |apply Hfst; [now right|exact Hp0m]].
+        destruct Hm as [<-|Hm]; [lia|]. assert (Rabs (xat xs bi) < Rabs (xat xs m)) by (apply Hfst; [now left|lia]). lra.
+Qed.
+
+Lemma last_indep {A} (l : list A) d d' : l <> [] -> List.last l d = List.last l d'.
+Proof. induction l as [|a l IH]; [congruence|]. intros _. destruct l as [|b l]; [reflexivity|]. change (List.last (b :: l) d = List.last (b :: l) d'). apply IH. discriminate. Qed.
+Lemma last_cons_default {A} (p : A) l d : List.last (p :: l) d = List.last l p.
+Proof. destruct l as [|a l]; [reflexivity|]. change (List.last (a :: l) d = List.last (a :: l) p). apply last_indep. discriminate. Qed.
+
+(** whatever happened before, a peak whose value does not share the strict sign of its predecessor opens a new half cycle *)
+Lemma spl0_prefix (xs : list R) pre : forall prev lst bv bi q rest,
+  ssame lst (xat xs prev) -> xat xs q * xat xs (List.last pre prev) <= 0 ->
+  exists O, spl 0 xs lst bv bi (pre ++ q :: rest) = O ++ spl 0 xs (xat xs q) (Rabs (xat xs q)) q rest /\
+            (forall o, In o O -> o = bi \/ In o pre).
+Proof.
+  induction pre as [|p pre' IH]; intros prev lst bv bi q rest Hs Hq.
+  - cbn [List.last] in Hq. cbn [app]. exists [bi]. split; [|intros o [<-|[]]; now left].
+    destruct (spl_cons 0 xs lst bv bi q rest) as [[_ E]|[[Hn _]|[Hn _]]]; [exact E| |]; exfalso; apply Hn, (proj2 (swc_0 _ _)); eapply ssame_mul_le; eauto.
+  - rewrite last_cons_default in Hq. cbn [app].
+    destruct (spl_cons 0 xs lst bv bi p (pre' ++ q :: rest)) as [[_ E]|[(_ & Hpos & _ & E)|(Hn & _ & E)]].
+    + destruct (IH p (xat xs p) (Rabs (xat xs p)) p q rest (ssame_refl _) Hq) as (O & EO & HO).
+      exists (bi :: O). split; [rewrite E, EO; reflexivity|]. intros o [<-|Ho]; [now left|]. destruct (HO o Ho) as [->|?]; right; [now left|now right].
+    + destruct (IH p lst (Rabs (xat xs p)) p q rest (ssame_of_pos _ _ Hpos) Hq) as (O & EO & HO).
+      exists O. split; [rewrite E, EO; reflexivity|]. intros o Ho. destruct (HO o Ho) as [->|?]; right; [now left|now right].
+    + assert (Hpos : 0 < xat xs p * lst) by (destruct (Rlt_le_dec 0 (xat xs p * lst)) as [?|Hle]; [assumption|exfalso; apply Hn, (proj2 (swc_0 _ _)), Hle]).
+      destruct (IH p lst bv bi q rest (ssame_of_pos _ _ Hpos) Hq) as (O & EO & HO).
+      exists O. split; [rewrite E, EO; reflexivity|]. intros o Ho. destruct (HO o Ho) as [->|?]; [now left|right; now right].
+Qed.
+
+(** consecutive reported peaks never share a strict sign *)
+Fixpoint adj_ok (xs : list R) (l : list nat) : Prop :=
+  match l with p :: ((q :: _) as r) => xat xs p * xat xs q <= 0 /\ adj_ok xs r | _ => True end.
+Lemma spl0_adj (xs : list R) ps : forall lst bv bi, ssame lst (xat xs bi) ->
+  adj_ok xs (spl 0 xs lst bv bi ps) /\ exists o t, spl 0 xs lst bv bi ps = o :: t /\ ssame lst (xat xs o).
+Proof.
+  induction ps as [|p r IH]; intros lst bv bi Hs.
+  - cbn [spl]. split; [exact I|]. exists bi, []. auto.
+  - destruct (spl_cons 0 xs lst bv bi p r) as [[Hsw E]|[(_ & Hpos & _ & E)|(Hn & _ & E)]]; rewrite E.
+    + destruct (IH (xat xs p) (Rabs (xat xs p)) p (ssame_refl _)) as (Hadj & o & t & Eo & Ho). split; [|exists bi, (spl 0 xs (xat xs p) (Rabs (xat xs p)) p r); auto].
+      rewrite Eo in *. cbn [adj_ok]. split; [|exact Hadj]. apply (proj1 (swc_0 _ _)) in Hsw.
+      destruct Hs as [[? ?]|[[? ?]|[? ?]]], Ho as [[? ?]|[[? ?]|[? ?]]]; nra.
+    + apply IH. now apply ssame_of_pos.
+    + apply IH. exact Hs.
+Qed.
+Lemma adj_ok_app (xs : list R) l1 p q l2 : adj_ok xs (l1 ++ p :: q :: l2) -> xat xs p * xat xs q <= 0.
+Proof.
+  induction l1 as [|a l1 IH]; cbn [app]; [intros [H _]; exact H|].
+  intros H. apply IH. destruct (l1 ++ p :: q :: l2) eqn:E; [destruct l1; discriminate|]. apply H.
+Qed.
+
+(** ** splitting an ascending list at a threshold *)
+Lemma filter_none {A} (f : A -> bool) l : (forall x, In x l -> f x = false) -> filter f l = [].
+Proof. induction l as [|a l IH]; intros H; [reflexivity|]. cbn [filter]. rewrite (H a (or_introl eq_refl)). apply IH. intros; apply H; now right. Qed.
+Lemma filter_all {A} (f : A -> bool) l : (forall x, In x l -> f x = true) -> filter f l = l.
+Proof. induction l as [|a l IH]; intros H; [reflexivity|]. cbn [filter]. rewrite (H a (or_introl eq_refl)). f_equal. apply IH. intros; apply H; now right. Qed.
+Lemma asc_split l c : ascending l -> l = filter (fun p => p <? c)%nat l ++ filter (fun p => negb (p <? c)%nat) l.
+Proof.
+  induction l as [|i r IH]; intros Ha; [reflexivity|]. inversion Ha as [|? ? Hlt Har]; subst. cbn [filter].
+  destruct (i <? c)%nat eqn:E; cbn [negb app].
+  - f_equal. now apply IH.
+  - apply Nat.ltb_ge in E. rewrite filter_none, filter_all; [reflexivity| |].
+    + intros x Hx. apply negb_true_iff, Nat.ltb_ge. specialize (Hlt x Hx). lia.
+    + intros x Hx. apply Nat.ltb_ge. specialize (Hlt x Hx). lia.
+Qed.
+Lemma asc_app_r l1 l2 : ascending (l1 ++ l2) -> ascending l2.
+Proof. induction l1 as [|a l1 IH]; [auto|]. cbn [app]. intros H. inversion H; subst. auto. Qed.
+Lemma asc_app_l l1 l2 : ascending (l1 ++ l2) -> ascending l1.
+Proof.
+  induction l1 as [|a l1 IH]; [constructor|]. cbn [app]. intros H. inversion H as [|? ? Hlt Har]; subst.
+  constructor; [|auto]. intros j Hj. apply Hlt, in_or_app. now left.
+Qed.
+
+Lemma spl_In tol (xs : list R) lst bv bi ps o : In o (spl tol xs lst bv bi ps) -> In o (bi :: ps).
+Proof.
+  destruct (sp_loop_subl tol xs lst bv bi ps []) as (L & E & HL & _). rewrite sp_loop_spl in E. cbn [rev app] in E.
+  rewrite E. apply subl_In. exact HL.
+Qed.
+
+(** list-level statement: a maximal run [mid] of peaks of strict sign [s] contributes exactly one switched peak, a largest one *)
+Lemma sp0_split (xs : list R) pre mid post s : sdir s -> peaks xs = pre ++ mid ++ post -> mid <> [] ->
+  (forall p, In p mid -> 0 < s * xat xs p) -> (pre <> [] -> s * xat xs (List.last pre 0%nat) <= 0) ->
+  match post with [] => True | q :: _ => s * xat xs q <= 0 end ->
+  exists O1 m O2, switched_peaks 0 xs = O1 ++ m :: O2 /\ (forall o, In o O1 -> In o pre) /\ In m mid /\
+    (forall p, In p mid -> Rabs (xat xs p) <= Rabs (xat xs m)) /\
+    (forall p, In p mid -> (p < m)%nat -> Rabs (xat xs p) < Rabs (xat xs m)) /\ (forall o, In o O2 -> In o post).
+Proof.
+  intros Hs EP Hmid Hsign Hpre Hpost.
+  assert (Hascmid : ascending mid).
+  { pose proof (P_C11.C11_ascending xs) as Ha. rewrite EP in Ha. apply asc_app_r in Ha. now apply asc_app_l in Ha. }
+  rewrite switched_peaks_spl, EP.
+  destruct mid as [|q mid']; [congruence|]. clear Hmid.
+  assert (Hq : 0 < s * xat xs q) by (apply Hsign; now left).
+  assert (Hblock : exists m O2, spl 0 xs (xat xs q) (Rabs (xat xs q)) q (mid' ++ post) = m :: O2 /\ In m (q :: mid') /\
+            (forall p, In p (q :: mid') -> Rabs (xat xs p) <= Rabs (xat xs m)) /\
+            (forall p, In p (q :: mid') -> (p < m)%nat -> Rabs (xat xs p) < Rabs (xat xs m)) /\ (forall o, In o O2 -> In o post)).
+  { destruct (spl0_block xs mid' (xat xs q) q post) as (m & Hm & Hdom & Hfst & E).
+    - exact Hascmid.
+    - intros p Hp. specialize (Hsign p (or_intror Hp)). destruct Hs as [-> | ->]; nra.
+    - destruct post as [|r post']; [exact I|]. destruct Hs as [-> | ->]; nra.
+    - exists m. eexists. split; [exact E|]. split; [exact Hm|]. split; [exact Hdom|]. split; [exact Hfst|].
+      destruct post as [|r post']; [intros o []|]. intros o Ho. now apply spl_In in Ho. }
+  destruct Hblock as (m & O2 & E & Hm & Hdom & Hfst & HO2).
+  destruct pre as [|p0 pre'].
+  - cbn [app]. exists [], m, O2. cbn [app]. split; [exact E|]. split; [intros o []|]. auto.
+  - cbn [app]. specialize (Hpre ltac:(discriminate)). rewrite last_cons_default in Hpre.
+    destruct (spl0_prefix xs pre' p0 (xat xs p0) (Rabs (xat xs p0)) p0 q (mid' ++ post) (ssame_refl _)) as (O & EO & HO).
+    + destruct Hs as [-> | ->]; nra.
+    + exists O, m, O2. split; [rewrite EO, E; reflexivity|]. split; [|auto].
+      intros o Ho. destruct (HO o Ho) as [->|?]; [now left|now right].
+Qed.
+
+(** ** monotone segments *)
+Lemma mono_le d (xs : list R) p q i j : mono_between d xs p q -> (p <= i <= j)%nat -> (j <= q)%nat -> d * xat xs i <= d * xat xs j.
+Proof.
+  intros [M1 _] Hij Hjq. apply (mono_chain d xs i j); [|lia].
+  intros m Hm. specialize (M1 (m - 1)%nat ltac:(lia)). replace (S (m - 1)) with m in M1 by lia. exact M1.
+Qed.
+
+(** in an ascending list, an index between the first and last element is bracketed by two neighbouring elements *)
+Lemma asc_bracket l k : ascending l -> (exists p, In p l /\ (p <= k)%nat) -> (exists q, In q l /\ (k <= q)%nat) ->
+  exists p q, In p l /\ In q l /\ (p <= k <= q)%nat /\ forall r, In r l -> ~ (p < r < q)%nat.
+Proof.
+  induction l as [|i r IH]; intros Ha (p & Hp & Hpk) (q & Hq & Hkq); [destruct Hp|].
+  inversion Ha as [|? ? Hlt Har]; subst.
+  destruct r as [|j r'].
+  - destruct Hp as [<-|[]]. destruct Hq as [<-|[]]. exists i, i. repeat split; auto; try lia. now left. now left.
+  - destruct (Nat.le_gt_cases j k) as [Hjk|Hjk].
+    + destruct IH as (p' & q' & Hp' & Hq' & Hb & Hn); [exact Har|exists j; split; [now left|exact Hjk]| |].
+      * destruct Hq as [<-|Hq]; [|eauto]. specialize (Hlt j (or_introl eq_refl)). lia.
+      * exists p', q'. split; [now right|]. split; [now right|]. split; [exact Hb|].
+        intros x [<-|Hx]; [|now apply Hn]. specialize (Hlt p' Hp'). lia.
+    + assert (Hik : (i <= k)%nat).
+      { destruct Hp as [<-|Hp]; [exact Hpk|]. assert (j <= p)%nat by (apply (ascending_head_min j r'); auto). lia. }
+      destruct (Nat.eq_dec i k) as [->|Hne].
+      * exists k, k. split; [now left|]. split; [now left|]. split; [lia|]. intros; lia.
+      * exists i, j. split; [now left|]. split; [right; now left|]. split; [lia|].
+        intros x [<-|Hx]; [lia|]. assert (j <= x)%nat by (apply (ascending_head_min j r'); auto). lia.
+Qed.
+Lemma peaks_bracket (xs : list R) k : xs <> [] -> (k <= final_start xs)%nat ->
+  exists p q, In p (peaks xs) /\ In q (peaks xs) /\ (p <= k <= q)%nat /\ no_reported_between xs p q.
+Proof.
+  intros Hne Hk. apply asc_bracket; [apply P_C11.C11_ascending| |].
+  - exists 0%nat. split; [|lia]. apply P_C11.C11_exact. split; [destruct xs; [congruence|cbn; lia]|now left].
+  - exists (final_start xs). split; [|exact Hk]. apply P_C11.C11_exact. split; [now apply final_start_lt|auto].
+Qed.
+
+(** ** excursions: maximal runs of samples of one strict sign *)
+Definition excursion (xs : list R) (s : R) (a b : nat) : Prop :=
+  sdir s /\ (a <= b < length xs)%nat /\ (forall k, (a <= k <= b)%nat -> 0 < s * xat xs k) /\
+  (a = 0%nat \/ s * xat xs (a - 1) <= 0) /\ (S b = length xs \/ s * xat xs (S b) <= 0).
+
+(** a run of samples of sign s that starts inside the excursion stays inside *)
+Lemma exc_closed (xs : list R) s a b i j : excursion xs s a b -> (i <= j < length xs)%nat ->
+  (forall k, (i <= k <= j)%nat -> 0 < s * xat xs k) -> ((a <= i <= b)%nat \/ (a <= j <= b)%nat) -> (a <= i)%nat /\ (j <= b)%nat.
+Proof.
+  intros (Hs & Hab & Hin & Hl & Hr) Hij Hrun Hmeet. split.
+  - destruct (Nat.le_gt_cases a i); [assumption|exfalso]. destruct Hl as [->|Hl]; [lia|].
+    specialize (Hrun (a - 1)%nat ltac:(lia)). lra.
+  - destruct (Nat.le_gt_cases j b); [assumption|exfalso]. destruct Hr as [Hr|Hr]; [lia|].
+    specialize (Hrun (S b) ltac:(lia)). lra.
+Qed.
+
+(** every sample of an excursion is dominated by a reported peak of the same excursion *)
+Lemma uphill_peak (xs : list R) s a b k : excursion xs s a b -> (a <= k <= b)%nat ->
+  exists r, In r (peaks xs) /\ (a <= r <= b)%nat /\ s * xat xs k <= s * xat xs r.
+Proof.
+  intros Hexc Hk. pose proof Hexc as (Hs & Hab & Hin & Hl & Hr).
+  assert (Hne : xs <> []) by (intros ->; cbn in Hab; lia).
+  assert (Hkpos : 0 < s * xat xs k) by (apply Hin; lia).
+  destruct (Nat.le_gt_cases k (final_start xs)) as [Hkf|Hkf].
+  - destruct (peaks_bracket xs k Hne Hkf) as (p & q & Hp & Hq & Hpkq & Hnone).
+    assert (Hql : (q < length xs)%nat) by (apply P_C11.C11_exact in Hq; tauto).
+    destruct (Nat.eq_dec p q) as [->|Hpq].
+    + assert (k = q) by lia. subst k. exists q. split; [exact Hq|]. split; [lia|lra].
+    + destruct (P_C11.C11_monotone_between xs p q Hp Hq ltac:(lia) Hnone) as [M|M].
+      * (* rising segment *)
+        destruct Hs as [-> | ->].
+        -- exists q. split; [exact Hq|].
+           assert (Hrun : forall m, (k <= m <= q)%nat -> 0 < 1 * xat xs m).
+           { intros m Hm. pose proof (mono_le 1 xs p q k m M ltac:(lia) ltac:(lia)). lra. }
+           destruct (exc_closed xs 1 a b k q Hexc ltac:(lia) Hrun ltac:(left; lia)). split; [lia|].
+           apply (mono_le 1 xs p q k q M); lia.
+        -- exists p. split; [exact Hp|].
+           assert (Hrun : forall m, (p <= m <= k)%nat -> 0 < -1 * xat xs m).
+           { intros m Hm. pose proof (mono_le 1 xs p q m k M ltac:(lia) ltac:(lia)). lra. }
+           destruct (exc_closed xs (-1) a b p k Hexc ltac:(lia) Hrun ltac:(right; lia)). split; [lia|].
+           pose proof (mono_le 1 xs p q p k M ltac:(lia) ltac:(lia)). lra.
+      * destruct Hs as [-> | ->].
+        -- exists p. split; [exact Hp|].
+           assert (Hrun : forall m, (p <= m <= k)%nat -> 0 < 1 * xat xs m).
+           { intros m Hm. pose proof (mono_le (-1) xs p q m k M ltac:(lia) ltac:(lia)). lra. }
+           destruct (exc_closed xs 1 a b p k Hexc ltac:(lia) Hrun ltac:(right; lia)). split; [lia|].
+           pose proof (mono_le (-1) xs p q p k M ltac:(lia) ltac:(lia)). lra.
+        -- exists q. split; [exact Hq|].
+           assert (Hrun : forall m, (k <= m <= q)%nat -> 0 < -1 * xat xs m).
+           { intros m Hm. pose proof (mono_le (-1) xs p q k m M ltac:(lia) ltac:(lia)). lra. }
+           destruct (exc_closed xs (-1) a b k q Hexc ltac:(lia) Hrun ltac:(left; lia)). split; [lia|].
+           apply (mono_le (-1) xs p q k q M); lia.
+  - (* in the final constant run *)
+    exists (final_start xs).
+    assert (Hconst : forall m, (final_start xs <= m < length xs)%nat -> xat xs m = xat xs (final_start xs)) by (apply final_run_constant).
+    split; [apply P_C11.C11_exact; split; [now apply final_start_lt|auto]|].
+    assert (Hrun : forall m, (final_start xs <= m <= k)%nat -> 0 < s * xat xs m).
+    { intros m Hm. rewrite (Hconst m) by lia. rewrite <- (Hconst k) by lia. exact Hkpos. }
+    destruct (exc_closed xs s a b (final_start xs) k Hexc ltac:(lia) Hrun ltac:(right; lia)). split; [lia|].
+    rewrite (Hconst k) by lia. lra.
+Qed.
+
+(** between two neighbouring reported peaks of the same strict sign every sample has that sign *)
+Lemma same_sign_between (xs : list R) s p q : sdir s -> In p (peaks xs) -> In q (peaks xs) -> (p < q)%nat ->
+  no_reported_between xs p q -> 0 < s * xat xs p -> 0 < s * xat xs q -> forall m, (p <= m <= q)%nat -> 0 < s * xat xs m.
+Proof.
+  intros Hs Hp Hq Hpq Hnone Hsp Hsq m Hm.
+  destruct (P_C11.C11_monotone_between xs p q Hp Hq Hpq Hnone) as [M|M];
+    pose proof (mono_le _ xs p q p m M ltac:(lia) ltac:(lia)); pose proof (mono_le _ xs p q m q M ltac:(lia) ltac:(lia));
+    destruct Hs as [-> | ->]; lra.
+Qed.
+
+(** a sample that attains the largest |value| of its excursion is preceded (or equalled) by a reported peak of the same value *)
+Lemma uphill_peak_left (xs : list R) s a b k : excursion xs s a b -> (a <= k <= b)%nat ->
+  (forall j, (a <= j <= b)%nat -> s * xat xs j <= s * xat xs k) ->
+  exists r, In r (peaks xs) /\ (a <= r <= k)%nat /\ xat xs r = xat xs k.
+Proof.
+  intros Hexc Hk Hmax. pose proof Hexc as (Hs & Hab & Hin & Hl & Hr).
+  assert (Hne : xs <> []) by (intros ->; cbn in Hab; lia).
+  assert (Hkpos : 0 < s * xat xs k) by (apply Hin; lia).
+  assert (Hcancel : forall u v, s * u = s * v -> u = v) by (intros u v E; destruct Hs as [-> | ->]; lra).
+  destruct (Nat.le_gt_cases k (final_start xs)) as [Hkf|Hkf].
+  - destruct (peaks_bracket xs k Hne Hkf) as (p & q & Hp & Hq & Hpkq & Hnone).
+    assert (Hql : (q < length xs)%nat) by (apply P_C11.C11_exact in Hq; tauto).
+    destruct (Nat.eq_dec k q) as [->|Hkq]; [exists q; split; [exact Hq|]; split; [lia|reflexivity]|].
+    destruct (Nat.eq_dec p k) as [->|Hpk]; [exists k; split; [exact Hp|]; split; [lia|reflexivity]|].
+    destruct (P_C11.C11_monotone_between xs p q Hp Hq ltac:(lia) Hnone) as [M|M].
+    + destruct Hs as [-> | ->].
+      * (* rising towards q: then q - 1 and q carry the maximal value, but q starts a plateau *)
+        exfalso.
+        assert (Hrun : forall m, (k <= m <= q)%nat -> 0 < 1 * xat xs m).
+        { intros m Hm. pose proof (mono_le 1 xs p q k m M ltac:(lia) ltac:(lia)). lra. }
+        destruct (exc_closed xs 1 a b k q Hexc ltac:(lia) Hrun ltac:(left; lia)).
+        pose proof (mono_le 1 xs p q k (q - 1) M ltac:(lia) ltac:(lia)).
+        pose proof (mono_le 1 xs p q (q - 1) q M ltac:(lia) ltac:(lia)).
+        pose proof (Hmax q ltac:(lia)).
+        pose proof (P_C11.C11_reported_are_plateau_starts xs q Hne Hq) as Hps.
+        destruct q as [|q']; [lia|]. cbn [pstart] in Hps. apply negb_true_iff, neqb_R_false in Hps.
+        replace (S q' - 1)%nat with q' in * by lia. lra.
+      * exists p. split; [exact Hp|].
+        assert (Hrun : forall m, (p <= m <= k)%nat -> 0 < -1 * xat xs m).
+        { intros m Hm. pose proof (mono_le 1 xs p q m k M ltac:(lia) ltac:(lia)). lra. }
+        destruct (exc_closed xs (-1) a b p k Hexc ltac:(lia) Hrun ltac:(right; lia)). split; [lia|].
+        pose proof (mono_le 1 xs p q p k M ltac:(lia) ltac:(lia)). pose proof (Hmax p ltac:(lia)). lra.
+    + destruct Hs as [-> | ->].
+      * exists p. split; [exact Hp|].
+        assert (Hrun : forall m, (p <= m <= k)%nat -> 0 < 1 * xat xs m).
+        { intros m Hm. pose proof (mono_le (-1) xs p q m k M ltac:(lia) ltac:(lia)). lra. }
+        destruct (exc_closed xs 1 a b p k Hexc ltac:(lia) Hrun ltac:(right; lia)). split; [lia|].
+        pose proof (mono_le (-1) xs p q p k M ltac:(lia) ltac:(lia)). pose proof (Hmax p ltac:(lia)). lra.
+      * exfalso.
+        assert (Hrun : forall m, (k <= m <= q)%nat -> 0 < -1 * xat xs m).
+        { intros m Hm. pose proof (mono_le (-1) xs p q k m M ltac:(lia) ltac:(lia)). lra. }
+        destruct (exc_closed xs (-1) a b k q Hexc ltac:(lia) Hrun ltac:(left; lia)).
+        pose proof (mono_le (-1) xs p q k (q - 1) M ltac:(lia) ltac:(lia)).
+        pose proof (mono_le (-1) xs p q (q - 1) q M ltac:(lia) ltac:(lia)).
+        pose proof (Hmax q ltac:(lia)).
+        pose proof (P_C11.C11_reported_are_plateau_starts xs q Hne Hq) as Hps.
+        destruct q as [|q']; [lia|]. cbn [pstart] in Hps. apply negb_true_iff, neqb_R_false in Hps.
+        replace (S q' - 1)%nat with q' in * by lia. lra.
+  - exists (final_start xs).
+    assert (Hconst : forall m, (final_start xs <= m < length xs)%nat -> xat xs m = xat xs (final_start xs)) by (apply final_run_constant).
+    split; [apply P_C11.C11_exact; split; [now apply final_start_lt|auto]|].
+    assert (Hrun : forall m, (final_start xs <= m <= k)%nat -> 0 < s * xat xs m).
+    { intros m Hm. rewrite (Hconst m) by lia. rewrite <- (Hconst k) by lia. exact Hkpos. }
+    destruct (exc_closed xs s a b (final_start xs) k Hexc ltac:(lia) Hrun ltac:(right; lia)). split; [lia|].
+    symmetry. apply Hconst. lia.
+Qed.
+
+(** ** C12: exactly one switched peak per excursion, at its largest |value| *)
+Lemma sp_excursion_full (xs : list R) s a b : excursion xs s a b ->
+  exists p, In p (switched_peaks 0 xs) /\ (a <= p <= b)%nat /\
+    (forall k, (a <= k <= b)%nat -> Rabs (xat xs k) <= Rabs (xat xs p)) /\
+    (forall q, In q (switched_peaks 0 xs) -> (a <= q <= b)%nat -> q = p) /\
+    (forall k, (a <= k < p)%nat -> Rabs (xat xs k) < Rabs (xat xs p)).
+Proof.
+  intros Hexc. pose proof Hexc as (Hs & Hab & Hin & Hl & Hr).
+  set (P := peaks xs).
+  set (pre := filter (fun p => p <? a)%nat P). set (rest := filter (fun p => negb (p <? a)%nat) P).
+  set (mid := filter (fun p => p <? S b)%nat rest). set (post := filter (fun p => negb (p <? S b)%nat) rest).
+  assert (HascP : ascending P) by apply P_C11.C11_ascending.
+  assert (E1 : P = pre ++ rest) by (apply asc_split; exact HascP).
+  assert (Hascrest : ascending rest) by (rewrite E1 in HascP; eapply asc_app_r; eauto).
+  assert (E2 : rest = mid ++ post) by (apply asc_split; exact Hascrest).
+  assert (EP : peaks xs = pre ++ mid ++ post) by (fold P; rewrite E1 at 1; now rewrite E2 at 1).
+  assert (Hpre : forall p, In p pre <-> In p P /\ (p < a)%nat).
+  { intros p. unfold pre. rewrite filter_In, Nat.ltb_lt. tauto. }
+  assert (Hmidc : forall p, In p mid <-> In p P /\ (a <= p <= b)%nat).
+  { intros p. unfold mid, rest. rewrite !filter_In, negb_true_iff, Nat.ltb_lt, Nat.ltb_ge. intuition lia. }
+  assert (Hpostc : forall p, In p post <-> In p P /\ (b < p)%nat).
+  { intros p. unfold post, rest. rewrite !filter_In, !negb_true_iff, !Nat.ltb_ge. intuition lia. }
+  assert (Hmidne : mid <> []).
+  { destruct (uphill_peak xs s a b a Hexc ltac:(lia)) as (r & Hr1 & Hr2 & _).
+    intros E. assert (Hi : In r mid) by (apply Hmidc; auto). rewrite E in Hi. destruct Hi. }
+  assert (Hsign : forall p, In p mid -> 0 < s * xat xs p) by (intros p Hp; apply Hmidc in Hp; apply Hin; lia).
+  assert (Hascpre : ascending pre) by (rewrite E1 in HascP; eapply asc_app_l; eauto).
+  assert (Hascmp : ascending (mid ++ post)) by (rewrite <- E2; exact Hascrest).
+  (* the peak before the excursion *)
+  assert (Hbefore : pre <> [] -> s * xat xs (List.last pre 0%nat) <= 0).
+  { intros Hne. destruct (Rle_lt_dec (s * xat xs (List.last pre 0%nat)) 0) as [?|Hpos]; [assumption|exfalso].
+    assert (Hp : In (List.last pre 0%nat) pre) by (apply last_In; exact Hne).
+    destruct mid as [|q0 mid'] eqn:Emid; [congruence|].
+    assert (Hq0 : In q0 (q0 :: mid')) by now left. pose proof (proj1 (Hmidc q0) Hq0) as [Hq0P Hq0r].
+    pose proof (proj1 (Hpre _) Hp) as [HpP Hpa].
+    assert (Hnone : no_reported_between xs (List.last pre 0%nat) q0).
+    { intros r Hr0 Hb. fold P in Hr0. rewrite E1, E2 in Hr0. apply in_app_or in Hr0 as [Hr0|Hr0].
+      - pose proof (ascending_last_max pre r 0%nat Hascpre Hr0). lia.
+      - pose proof (ascending_head_min q0 (mid' ++ post) r Hascmp Hr0). lia. }
+    pose proof (same_sign_between xs s _ q0 Hs HpP Hq0P ltac:(lia) Hnone Hpos (Hsign q0 Hq0)) as Hrun.
+    assert (Hq0l : (q0 < length xs)%nat) by lia.
+    destruct (exc_closed xs s a b (List.last pre 0%nat) q0 Hexc ltac:(lia) Hrun ltac:(right; lia)). lia. }
+  assert (Hafter : match post with [] => True | q :: _ => s * xat xs q <= 0 end).
+  { destruct post as [|q post'] eqn:Epost; [exact I|].
+    destruct (Rle_lt_dec (s * xat xs q) 0) as [?|Hpos]; [assumption|exfalso].
+    assert (Hq : In q (q :: post')) by now left. pose proof (proj1 (Hpostc q) Hq) as [HqP Hqb].
+    assert (Hp : In (List.last mid 0%nat) mid) by (apply last_In; exact Hmidne).
+    pose proof (proj1 (Hmidc _) Hp) as [HpP Hpr].
+    assert (Hascmid : ascending mid) by (eapply asc_app_l; eauto).
+    assert (Hnone : no_reported_between xs (List.last mid 0%nat) q).
+    { intros r Hr0 Hb. fold P in Hr0. rewrite E1, E2 in Hr0. apply in_app_or in Hr0 as [Hr0|Hr0].
+      - apply Hpre in Hr0. lia.
+      - apply in_app_or in Hr0 as [Hr0|Hr0].
+        + pose proof (ascending_last_max mid r 0%nat Hascmid Hr0). lia.
+        + pose proof (ascending_head_min q post' r (asc_app_r _ _ Hascmp) Hr0). lia. }
+    pose proof (same_sign_between xs s _ q Hs HpP HqP ltac:(lia) Hnone (Hsign _ Hp) Hpos) as Hrun.
+    assert (Hql : (q < length xs)%nat) by (apply P_C11.C11_exact in HqP; tauto).
+    destruct (exc_closed xs s a b (List.last mid 0%nat) q Hexc ltac:(lia) Hrun ltac:(left; lia)). lia. }
+  destruct (sp0_split xs pre mid post s Hs EP Hmidne Hsign Hbefore Hafter) as (O1 & m & O2 & E & HO1 & Hm & Hdom & Hfst & HO2).
+  exists m. pose proof (proj1 (Hmidc m) Hm) as [HmP Hmr].
+  assert (Habs : forall k, (a <= k <= b)%nat -> Rabs (xat xs k) = s * xat xs k).
+  { intros k Hk. pose proof (Hin k Hk). destruct Hs as [-> | ->]; [rewrite Rabs_pos_eq by lra; lra|rewrite Rabs_left by lra; lra]. }
+  assert (Hmaxall : forall k, (a <= k <= b)%nat -> Rabs (xat xs k) <= Rabs (xat xs m)).
+  { intros k Hk. destruct (uphill_peak xs s a b k Hexc Hk) as (r & Hr1 & Hr2 & Hr3).
+    apply Rle_trans with (Rabs (xat xs r)); [|apply Hdom, Hmidc; auto]. rewrite !Habs by lia. exact Hr3. }
+  split; [rewrite E; apply in_or_app; right; now left|]. split; [exact Hmr|]. split; [exact Hmaxall|]. split.
+  - intros q Hq Hqr. rewrite E in Hq. apply in_app_or in Hq as [Hq|[Hq|Hq]]; [|auto|].
+    + apply HO1, Hpre in Hq. lia.
+    + apply HO2, Hpostc in Hq. lia.
+  - intros k Hk. destruct (Rlt_le_dec (Rabs (xat xs k)) (Rabs (xat xs m))) as [Hlt|Hge]; [exact Hlt|exfalso].
+    assert (Hkmax : forall j, (a <= j <= b)%nat -> s * xat xs j <= s * xat xs k).
+    { intros j Hj. rewrite <- !Habs by lia. apply Rle_trans with (Rabs (xat xs m)); [now apply Hmaxall|exact Hge]. }
+    destruct (uphill_peak_left xs s a b k Hexc ltac:(lia) Hkmax) as (r & Hr1 & Hr2 & Hr3).
+    assert (Hrm : Rabs (xat xs r) < Rabs (xat xs m)) by (apply Hfst; [apply Hmidc; split; [exact Hr1|lia]|lia]).
+    rewrite Hr3 in Hrm. lra.
+Qed.
+Lemma C12_sp_one_per_excursion (xs : list R) s a b : excursion xs s a b ->
+  exists p, In p (switched_peaks 0 xs) /\ (a <= p <= b)%nat /\
+    (forall k, (a <= k <= b)%nat -> Rabs (xat xs k) <= Rabs (xat xs p)) /\
+    (forall q, In q (switched_peaks 0 xs) -> (a <= q <= b)%nat -> q = p).
+Proof. intros Hexc. destruct (sp_excursion_full xs s a b Hexc) as (p & H1 & H2 & H3 & H4 & _). exists p. auto. Qed.
+(** ... and it is the first sample of the excursion that attains the largest |value| *)
+Lemma C12_sp_first_largest (xs : list R) s a b p : excursion xs s a b -> In p (switched_peaks 0 xs) -> (a <= p <= b)%nat ->
+  forall k, (a <= k < p)%nat -> Rabs (xat xs k) < Rabs (xat xs p).
+Proof.
+  intros Hexc Hp Hr. destruct (sp_excursion_full xs s a b Hexc) as (p' & _ & _ & _ & Hu & Hf).
+  rewrite (Hu p Hp Hr). exact Hf.
+Qed.
+
+(** ** existence of the excursion around a non-zero sample *)
+Lemma run_left (xs : list R) s k : 0 < s * xat xs k ->
+  exists a, (a <= k)%nat /\ (forall j, (a <= j <= k)%nat -> 0 < s * xat xs j) /\ (a = 0%nat \/ s * xat xs (a - 1) <= 0).
+Proof.
+  induction k as [|k IH]; intros Hk.
+  - exists 0%nat. split; [lia|]. split; [intros j Hj; now replace j with 0%nat by lia|now left].
+  - destruct (Rle_lt_dec (s * xat xs k) 0) as [Hle|Hpos].
+    + exists (S k). split; [lia|]. split; [intros j Hj; now replace j with (S k) by lia|right; now replace (S k - 1)%nat with k by lia].
+    + destruct (IH Hpos) as (a & Ha & Hrun & Hb). exists a. split; [lia|]. split; [|exact Hb].
+      intros j Hj. destruct (Nat.eq_dec j (S k)) as [->|]; [exact Hk|apply Hrun; lia].
+Qed.
+Lemma run_right (xs : list R) s d : forall k, length xs = (k + S d)%nat -> 0 < s * xat xs k ->
+  exists b, (k <= b < length xs)%nat /\ (forall j, (k <= j <= b)%nat -> 0 < s * xat xs j) /\ (S b = length xs \/ s * xat xs (S b) <= 0).
+Proof.
+  induction d as [|d IH]; intros k Hlen Hk.
+  - exists k. split; [lia|]. split; [intros j Hj; now replace j with k by lia|left; lia].
+  - destruct (Rle_lt_dec (s * xat xs (S k)) 0) as [Hle|Hpos].
+    + exists k. split; [lia|]. split; [intros j Hj; now replace j with k by lia|now right].
+    + destruct (IH (S k) ltac:(lia) Hpos) as (b & Hb & Hrun & He). exists b. split; [lia|]. split; [|exact He].
+      intros j Hj. destruct (Nat.eq_dec j k) as [->|]; [exact Hk|apply Hrun; lia].
+Qed.
+Lemma excursion_exists (xs : list R) k : (k < length xs)%nat -> xat xs k <> 0 ->
+  exists s a b, excursion xs s a b /\ (a <= k <= b)%nat.
+Proof.
+  intros Hk Hnz.
+  assert (Hs : exists s, sdir s /\ 0 < s * xat xs k).
+  { destruct (Rtotal_order (xat xs k) 0) as [H|[H|H]]; [exists (-1); split; [now right|lra]|contradiction|exists 1; split; [now left|lra]]. }
+  destruct Hs as (s & Hs & Hpos).
+  destruct (run_left xs s k Hpos) as (a & Ha & Hra & Hla).
+  destruct (run_right xs s (length xs - k - 1) k ltac:(lia) Hpos) as (b & Hb & Hrb & Hlb).
+  exists s, a, b. split; [|lia]. split; [exact Hs|]. split; [lia|]. split; [|auto].
+  intros j Hj. destruct (Nat.le_gt_cases j k); [apply Hra|apply Hrb]; lia.
+Qed.
+
+(** ** consequences *)
+Lemma sp_nonempty tol (xs : list R) : xs <> [] -> switched_peaks tol xs <> [].
+Proof.
+  intros Hne. unfold switched_peaks, switched_peaks_of.
+  destruct (peaks xs) as [|p0 r] eqn:E.
+  - exfalso. assert (Hin : In 0%nat (peaks xs)) by (apply P_C11.C11_exact; split; [destruct xs; [congruence|cbn; lia]|now left]). rewrite E in Hin. destruct Hin.
+  - destruct (sp_loop_subl tol xs (xat xs p0) (nabs (xat xs p0)) p0 r []) as (L & -> & _ & HL). exact HL.
+Qed.
+Lemma argmax_exists (f : nat -> R) n : (0 < n)%nat -> exists M, (M < n)%nat /\ forall k, (k < n)%nat -> f k <= f M.
+Proof.
+  induction n as [|n IH]; [lia|]. intros _. destruct n as [|n].
+  - exists 0%nat. split; [lia|]. intros k Hk. replace k with 0%nat by lia. lra.
+  - destruct (IH ltac:(lia)) as (M & HM & Hdom). destruct (Rle_lt_dec (f (S n)) (f M)) as [Hle|Hgt].
+    + exists M. split; [lia|]. intros k Hk. destruct (Nat.eq_dec k (S n)) as [->|]; [exact Hle|apply Hdom; lia].
+    + exists (S n). split; [lia|]. intros k Hk. destruct (Nat.eq_dec k (S n)) as [->|]; [lra|]. specialize (Hdom k ltac:(lia)). lra.
+Qed.
+(** the global absolute maximum is among the switched peaks *)
+Lemma C12_sp_global_abs_max (xs : list R) : xs <> [] ->
+  exists p, In p (switched_peaks 0 xs) /\ forall k, (k < length xs)%nat -> Rabs (xat xs k) <= Rabs (xat xs p).
+Proof.
+  intros Hne. destruct (argmax_exists (fun k => Rabs (xat xs k)) (length xs)) as (M & HM & Hdom); [destruct xs; [congruence|cbn; lia]|].
+  destruct (Req_dec (xat xs M) 0) as [Hz|Hnz].
+  - destruct (switched_peaks 0 xs) as [|p t] eqn:E; [exfalso; now apply (sp_nonempty 0 xs Hne)|].
+    exists p. split; [now left|]. intros k Hk. specialize (Hdom k Hk). cbv beta in Hdom. rewrite Hz, Rabs_R0 in Hdom.
+    pose proof (Rabs_pos (xat xs p)). lra.
+  - destruct (excursion_exists xs M HM Hnz) as (s & a & b & Hexc & HMr).
+    destruct (C12_sp_one_per_excursion xs s a b Hexc) as (p & Hp & _ & Hmax & _).
+    exists p. split; [exact Hp|]. intros k Hk. specialize (Hdom k Hk). specialize (Hmax M HMr). cbv beta in Hdom. lra.
+Qed.
+(** a series with a non-zero sample has a non-zero switched peak *)
+Lemma C12_sp_nonzero (xs : list R) : (exists k, (k < length xs)%nat /\ xat xs k <> 0) ->
+  exists p, In p (switched_peaks 0 xs) /\ xat xs p <> 0.
+Proof.
+  intros (k & Hk & Hnz). assert (Hne : xs <> []) by (intros ->; cbn in Hk; lia).
+  destruct (C12_sp_global_abs_max xs Hne) as (p & Hp & Hdom). exists p. split; [exact Hp|].
+  intros Hz. specialize (Hdom k Hk). rewrite Hz, Rabs_R0 in Hdom. pose proof (Rabs_pos_lt _ Hnz). lra.
+Qed.
+Lemma C12_sp_nonzero_of_nonconstant (xs : list R) : first_up xs <> None -> exists p, In p (switched_peaks 0 xs) /\ xat xs p <> 0.
+Proof.
+  intros Hnc. apply C12_sp_nonzero. unfold first_up in Hnc. destruct (next_diff xs 0) as [j|] eqn:Ej; [|congruence].
+  apply next_diff_spec in Ej as (Hj & Hd & _).
+  destruct (Req_dec (xat xs j) 0) as [Hz|Hnz]; [exists 0%nat; split; [lia|]; intros H0; apply Hd; lra|exists j; split; [lia|exact Hnz]].
+Qed.
+(** every switched peak is zero-valued or lies in an excursion (of which it is then the unique, largest switched peak) *)
+Lemma C12_sp_zero_or_in_excursion (xs : list R) p : In p (switched_peaks 0 xs) ->
+  In p (peaks xs) /\ (xat xs p = 0 \/ exists s a b, excursion xs s a b /\ (a <= p <= b)%nat).
+Proof.
+  intros Hp. assert (HpP : In p (peaks xs)) by (eapply subl_In; [apply C12_sp_subsequence_of_peaks|exact Hp]).
+  split; [exact HpP|]. destruct (Req_dec (xat xs p) 0) as [Hz|Hnz]; [now left|right].
+  apply excursion_exists; [apply P_C11.C11_exact in HpP; tauto|exact Hnz].
+Qed.
+(** consecutive switched peaks never share a strict sign *)
+Lemma C12_sp_consecutive_signs (xs : list R) l1 p q l2 : switched_peaks 0 xs = l1 ++ p :: q :: l2 -> xat xs p * xat xs q <= 0.
+Proof.
+  intros E. rewrite switched_peaks_spl in E. destruct (peaks xs) as [|p0 r]; [destruct l1; discriminate|].
+  destruct (spl0_adj xs r (xat xs p0) (Rabs (xat xs p0)) p0 (ssame_refl _)) as [Hadj _].
+  rewrite E in Hadj. eapply adj_ok_app; eauto.
+Qed.
+
+(** ** positive tolerance: every switched peak is a zero-tolerance switched peak *)
+Lemma pos_mul_cases a b : 0 < a * b <-> (0 < a /\ 0 < b) \/ (a < 0 /\ b < 0).
+Proof.
+  split; [intros H|intros [[? ?]|[? ?]]; nra].
+  destruct (Rtotal_order a 0) as [Ha|[Ha|Ha]], (Rtotal_order b 0) as [Hb|[Hb|Hb]]; try (subst; lra); try nra; auto.
+Qed.
+Lemma Rabs_cases v : (0 <= v /\ Rabs v = v) \/ (v < 0 /\ Rabs v = - v).
+Proof. destruct (Rle_lt_dec 0 v); [left; split; [lra|now apply Rabs_pos_eq]|right; split; [lra|now apply Rabs_left]]. Qed.
+(** the tol-run lags behind the 0-run: its candidate has already been emitted by the 0-run *)
+Definition lagI (tol lt bvt l0 bv0 : R) : Prop :=
+  lt <> 0 /\ (0 < lt -> (0 < l0 -> bv0 <= bvt) /\ (l0 <= 0 -> bv0 < tol)) /\ (lt < 0 -> (l0 < 0 -> bv0 <= bvt) /\ (0 <= l0 -> bv0 < tol)).
+Ltac lin :=
+  rewrite ?swc_cases, ?pos_mul_cases in *; unfold ssame, lagI in *;
+  repeat match goal with
+  | H : _ /\ _ |- _ => destruct H
+  | H : _ \/ _ |- _ => destruct H
+  end; subst; try lra; intuition lra.
+
+Lemma sp_sim tol (xs : list R) : 0 < tol -> forall ps (lag : bool) lt bvt bit l0 bv0 bi0,
+  ssame lt (xat xs bit) -> ssame l0 (xat xs bi0) -> bvt = Rabs (xat xs bit) -> bv0 = Rabs (xat xs bi0) ->
+  (if lag then lagI tol lt bvt l0 bv0 else bit = bi0) ->
+  forall m, In m (spl tol xs lt bvt bit ps) ->
+    if lag then m = bit \/ In m (spl 0 xs l0 bv0 bi0 ps) else In m (spl 0 xs l0 bv0 bi0 ps).
+Proof.
+  intros Htol. induction ps as [|p r IH]; intros lag lt bvt bit l0 bv0 bi0 Hst Hs0 Ebt Eb0 Hmode m Hm.
+  - cbn [spl] in *. destruct Hm as [<-|[]]. destruct lag; [now left|left; now symmetry].
+  - pose proof (Rabs_cases (xat xs bit)) as Habt. pose proof (Rabs_cases (xat xs bi0)) as Hab0.
+    pose proof (Rabs_cases (xat xs p)) as Hav.
+    assert (IHsync : forall l0', ssame l0' (xat xs p) -> In m (spl tol xs (xat xs p) (Rabs (xat xs p)) p r) ->
+                In m (spl 0 xs l0' (Rabs (xat xs p)) p r)).
+    { intros l0' Hl0'. exact (IH false (xat xs p) (Rabs (xat xs p)) p l0' (Rabs (xat xs p)) p (ssame_refl _) Hl0' eq_refl eq_refl eq_refl m). }
+    assert (IHsync' : forall l0', ssame l0' (xat xs p) -> 0 < xat xs p * lt -> In m (spl tol xs lt (Rabs (xat xs p)) p r) ->
+                In m (spl 0 xs l0' (Rabs (xat xs p)) p r)).
+    { intros l0' Hl0' Hpos. exact (IH false lt (Rabs (xat xs p)) p l0' (Rabs (xat xs p)) p (ssame_of_pos _ _ Hpos) Hl0' eq_refl eq_refl eq_refl m). }
+    assert (IHlag : forall l0' bv0' bi0', ssame l0' (xat xs bi0') -> bv0' = Rabs (xat xs bi0') -> lagI tol lt bvt l0' bv0' ->
+                In m (spl tol xs lt bvt bit r) -> m = bit \/ In m (spl 0 xs l0' bv0' bi0' r)).
+    { intros l0' bv0' bi0' H1 H2 H3. exact (IH true lt bvt bit l0' bv0' bi0' Hst H1 Ebt H2 H3 m). }
+    assert (IHkeep : bit = bi0 -> In m (spl tol xs lt bvt bit r) -> In m (spl 0 xs l0 bv0 bi0 r)).
+    { intros H3. exact (IH false lt bvt bit l0 bv0 bi0 Hst Hs0 Ebt Eb0 H3 m). }
+    clear IH.
+    destruct (spl_cons tol xs lt bvt bit p r) as [[HT ET]|[(HT1 & HT2 & HT3 & ET)|(HT1 & HT2 & ET)]];
+    destruct (spl_cons 0 xs l0 bv0 bi0 p r) as [[HZ EZ]|[(HZ1 & HZ2 & HZ3 & EZ)|(HZ1 & HZ2 & EZ)]];
+    rewrite ET in Hm; rewrite EZ; clear ET EZ.
+    + (* both switch *)
+      destruct lag.
+      * destruct Hm as [<-|Hm]; [now left|right; right; apply IHsync; [apply ssame_refl|exact Hm]].
+      * subst bi0. destruct Hm as [<-|Hm]; [now left|right; apply IHsync; [apply ssame_refl|exact Hm]].
+    + (* tol switches, 0 updates: only when lagging *)
+      destruct lag; [|exfalso; subst bi0; clear IHsync IHsync' IHlag IHkeep Hm; set (av := Rabs (xat xs p)) in *; clearbody av; lin].
+      destruct Hm as [<-|Hm]; [now left|right]. apply IHsync; [now apply ssame_of_pos|exact Hm].
+    + (* tol switches, 0 keeps: impossible *)
+      exfalso. clear IHsync IHsync' IHlag IHkeep Hm. destruct lag; [|subst bi0]; set (av := Rabs (xat xs p)) in *; clearbody av; lin.
+    + (* tol updates, 0 switches: only when lagging *)
+      destruct lag; [|exfalso; subst bi0; clear IHsync IHsync' IHlag IHkeep Hm; set (av := Rabs (xat xs p)) in *; clearbody av; lin].
+      right. right. apply IHsync'; [apply ssame_refl|exact HT2|exact Hm].
+    + (* both update *)
+      assert (Hgoal : In m (spl 0 xs l0 (Rabs (xat xs p)) p r)) by (apply IHsync'; [now apply ssame_of_pos|exact HT2|exact Hm]).
+      destruct lag; [now right|exact Hgoal].
+    + (* tol updates, 0 keeps: impossible *)
+      exfalso. clear IHsync IHsync' IHlag IHkeep Hm. destruct lag; [|subst bi0]; set (av := Rabs (xat xs p)) in *; clearbody av; lin.
+    + (* tol keeps, 0 switches: the tol-run starts (or keeps) lagging *)
+      assert (Hl : lagI tol lt bvt (xat xs p) (Rabs (xat xs p))).
+      { clear IHsync IHsync' IHlag IHkeep Hm. destruct lag; [|subst bi0]; set (av := Rabs (xat xs p)) in *; clearbody av; lin. }
+      destruct (IHlag (xat xs p) (Rabs (xat xs p)) p (ssame_refl _) eq_refl Hl Hm) as [->|Hin].
+      * destruct lag; [now left|subst bi0; now left].
+      * destruct lag; [right; now right|now right].
+    + (* tol keeps, 0 updates: only when lagging *)
+      destruct lag; [|exfalso; subst bi0; clear IHsync IHsync' IHlag IHkeep Hm; set (av := Rabs (xat xs p)) in *; clearbody av; lin].
+      assert (Hl : lagI tol lt bvt l0 (Rabs (xat xs p))).
+      { clear IHsync IHsync' IHlag IHkeep Hm. set (av := Rabs (xat xs p)) in *; clearbody av; lin. }
+      exact (IHlag l0 (Rabs (xat xs p)) p (ssame_of_pos _ _ HZ2) eq_refl Hl Hm).
+    + (* both keep *)
+      destruct lag; [exact (IHlag l0 bv0 bi0 Hs0 Eb0 Hmode Hm)|exact (IHkeep Hmode Hm)].
+Qed.
+
+Lemma asc_incl_subl (b : list nat) : forall a, ascending a -> ascending b -> (forall x, In x a -> In x b) -> subl a b.
+Proof.
+  induction b as [|y b' IH]; intros a Ha Hb Hincl.
+  - destruct a as [|x a']; [constructor|]. destruct (Hincl x (or_introl eq_refl)).
+  - destruct a as [|x a']; [constructor|].
+    inversion Ha as [|? ? Hlta Haa]; subst. inversion Hb as [|? ? Hltb Hbb]; subst.
+    destruct (Nat.eq_dec x y) as [->|Hne].
+    + apply subl_keep. apply IH; [exact Haa|exact Hbb|].
+      intros z Hz. destruct (Hincl z (or_intror Hz)) as [<-|Hin]; [|exact Hin]. specialize (Hlta _ Hz). lia.
+    + apply subl_skip. apply IH; [exact Ha|exact Hbb|].
+      assert (Hxy : (y < x)%nat) by (destruct (Hincl x (or_introl eq_refl)) as [E|Hin]; [congruence|now apply Hltb]).
+      intros z Hz. destruct (Hincl z Hz) as [<-|Hin]; [|exact Hin].
+      destruct Hz as [<-|Hz]; [lia|]. specialize (Hlta _ Hz). lia.
+Qed.
+(** with a positive tolerance the switched peaks are a subsequence of the zero-tolerance switched peaks *)
+Lemma C12_sp_tol_subsequence tol (xs : list R) : 0 <= tol -> subl (switched_peaks tol xs) (switched_peaks 0 xs).
+Proof.
+  intros [Htol|<-]; [|apply subl_refl].
+  apply asc_incl_subl; [apply C12_sp_ascending|apply C12_sp_ascending|].
+  intros m. rewrite !switched_peaks_spl. destruct (peaks xs) as [|p0 r]; [auto|].
+  exact (sp_sim tol xs Htol r false _ _ p0 _ _ p0 (ssame_refl _) (ssame_refl _) eq_refl eq_refl eq_refl m).
+Qed.
